@@ -72,7 +72,9 @@ def attr_cases(prog: Program, cls: ClassInfo, attr: str):
         cases.append((B.mk_and([g] + [B.mk_not(c) for c in covered]), st.value))
         covered.append(g)
     else:
-        return None
+        # every store is conditional (`if c: self.a = X  else: self.a = Y`): the cases are those of the stores; where none applies the
+        # attribute does not exist, and no case is invented for it
+        return cases or None
     return cases
 
 
